@@ -391,6 +391,11 @@ def job(arg):
         for b in sub:
             run_cells([first, b], res, "pair")
         res.sample({"pair": [list(first), list(sub[0])]})
+    elif kind == "triples":
+        first, second, sub = items
+        for c in sub:
+            run_cells([first, second, c], res, "triple")
+        res.sample({"triple": [list(first), list(second), list(sub[0])]})
     elif kind == "out":
         outgoing(res)
     elif kind == "behind":
@@ -452,8 +457,11 @@ def run(tier, seed, jobs):
     work += [("pairs", (a, sub)) for a in sub]
     work.append(("out", None))
     work += [("behind", sub[i::4]) for i in range(4)]
+    if tier == "thorough":
+        work += [("triples", (a, b, sub)) for a in sub for b in sub]
     res = core.prun(job, work, jobs)
-    res.scenarios["table"] = {"cells": len(cells), "pair_subtable": len(sub), "pairs": len(sub) ** 2}
+    res.scenarios["table"] = {"cells": len(cells), "pair_subtable": len(sub), "pairs": len(sub) ** 2,
+                              "triples": len(sub) ** 3 if tier == "thorough" else 0}
     return res
 
 
